@@ -183,6 +183,25 @@ def run(chk):
                     if m.get("model") == "mass conserving" and rng.random() < 0.6:
                         k = rng.choice(["forearc cooling factor", "taper distance", "coupling depth", "min distance slab top", "thermal conductivity"])
                         m[k] = rng.choice([0.0, 0.0, 1e-30, 1e30]) if k != "min distance slab top" else 0.0
+        if wi % 6 == 5:
+            # spherical oceanic plates whose ridge is written on the other side of the +-180 meridian from most of the plate,
+            # in either direction, with one velocity per ridge coordinate: the nearest ridge point of a query is reached
+            # through its longitude copy, before the first / behind the last ridge coordinate included
+            from wbgen import cart_point as _cp
+            base = rng.choice([180.0, -180.0])
+            lon_r = base + rng.choice([-1, 1]) * rng.uniform(2, 9)
+            ridge = [[round(lon_r, 1), -10.0], [round(lon_r - rng.choice([-1, 1]) * rng.uniform(2, 8), 1), 10.0]]
+            if rng.random() < 0.5:
+                ridge = ridge[::-1]
+            wj = {"version": "1.1", "coordinate system": {"model": "spherical", "depth method": "begin segment"},
+                  "features": [{"model": "oceanic plate", "name": "o", "coordinates": [[base - 30, -35], [base + 30, -35], [base + 30, 35], [base - 30, 35]],
+                                "max depth": 1.5e5,
+                                "temperature models": [{"model": rng.choice(["plate model", "half space model"]), "max depth": 1.5e5, "top temperature": 300.0,
+                                                        "bottom temperature": rng.choice([1600.0, -1]), "ridge coordinates": [ridge],
+                                                        "spreading velocity": rng.choice([0.05, [[0.0, [[0.03, 0.08]]]]])}]}]}
+            sph = True
+            aimed_profile = [("ridge across the date line", _cp(True, base + rng.uniform(-28, 28), rng.uniform(-33, 33), dd, 6371000.0, TOP), dd)
+                             for dd in [float(round(rng.uniform(0, 1.5e5))) for _k in range(40)]]
         sanitize_numbers(wj)
         path = os.path.join(wdir, "w%d.wb" % wi)
         json.dump(wj, open(path, "w"))
